@@ -562,20 +562,35 @@ theorem BR_ReadListBegin_eq (N : ErrNaming) (hw : WrapOK N) (r : Rd) :
   · sr_simp [h1, h2]
   · sr_simp [h1, h2]
 
+/-- `ReadSetBegin` has the body of `ReadListBegin` (the model functions are the same term). The proof covers both ways
+    of writing it in Go: the body spelled out (first alternative: the ListBegin proof), or a call of `ReadListBegin`
+    (second alternative: `BR_ReadListBegin_eq` and eta on the returned tuple). -/
 theorem BR_ReadSetBegin_eq (N : ErrNaming) (hw : WrapOK N) (r : Rd) :
     liftBR2 N (fun et n => (tyByte et, n.toNat)) (Funcs.BR_ReadSetBegin (iOfRd (rdOf N)) r) =
       Wire.brReadSetBegin r := by
-  unfold Funcs.BR_ReadSetBegin Wire.brReadSetBegin
-  rcases SR.next_cases N hw r 5 with ⟨b, r', h1, h2⟩ | ⟨e, r', h1, h2⟩ | ⟨h1, h2⟩
-  · rcases SR.idx0_cases b with ⟨g1, g2⟩ | ⟨x, g1, g2⟩
-    · sr_simp [h1, h2, g1, g2]
-    · rcases SR.sfrom1_cases b with ⟨g5, g6⟩ | ⟨b', g5, g6⟩
-      · sr_simp [h1, h2, g1, g2, g5, g6]
-      · rcases SR.u32_cases b' with ⟨g7, g8⟩ | ⟨v, g7, g8, _, _⟩
-        · sr_simp [h1, h2, g1, g2, g5, g6, g7, g8]
-        · sr_simp [h1, h2, g1, g2, g5, g6, g7, g8, SR.wrap_i8_u8, tyByte_toI8]
-  · sr_simp [h1, h2]
-  · sr_simp [h1, h2]
+  have hm : Wire.brReadSetBegin r = Wire.brReadListBegin r := rfl
+  rw [hm]
+  first
+  | (unfold Funcs.BR_ReadSetBegin Wire.brReadListBegin
+     rcases SR.next_cases N hw r 5 with ⟨b, r', h1, h2⟩ | ⟨e, r', h1, h2⟩ | ⟨h1, h2⟩
+     · rcases SR.idx0_cases b with ⟨g1, g2⟩ | ⟨x, g1, g2⟩
+       · sr_simp [h1, h2, g1, g2]
+       · rcases SR.sfrom1_cases b with ⟨g5, g6⟩ | ⟨b', g5, g6⟩
+         · sr_simp [h1, h2, g1, g2, g5, g6]
+         · rcases SR.u32_cases b' with ⟨g7, g8⟩ | ⟨v, g7, g8, _, _⟩
+           · sr_simp [h1, h2, g1, g2, g5, g6, g7, g8]
+           · sr_simp [h1, h2, g1, g2, g5, g6, g7, g8, SR.wrap_i8_u8, tyByte_toI8]
+     · sr_simp [h1, h2]
+     · sr_simp [h1, h2])
+  | (have hL := BR_ReadListBegin_eq N hw r
+     unfold Funcs.BR_ReadSetBegin
+     generalize Funcs.BR_ReadListBegin (iOfRd (rdOf N)) r = x at hL ⊢
+     rw [← hL]
+     cases x with
+     | ok t => simp
+     | panic s => rfl
+     | oob => rfl
+     | err e => exact nomatch e)
 
 /-! ## ReadMessageBegin -/
 
@@ -633,7 +648,9 @@ theorem BR_ReadMessageBegin_eq (N : ErrNaming) (hw : WrapOK N) (r : Rd) :
       · sr_simp [h1, h2, hv, ht, hty, hver, hver', k1, k2, Facts.msgVersionMask, Facts.msgVersion1,
           Facts.msgTypeMask]
     · have hver' : ¬ ((ofInt 32 v &&& 4294901760 : Nat) : Int) = 2147549184 := by omega
-      sr_simp [h1, h2, hv, hver, hver', Facts.msgVersionMask, Facts.msgVersion1, Wire.errBadVersion,
+      -- both orientations of the comparison (`a != b` / `b != a` in the source)
+      have hver'' : ¬ (2147549184 : Int) = ((ofInt 32 v &&& 4294901760 : Nat) : Int) := by omega
+      sr_simp [h1, h2, hv, hver, hver', hver'', Facts.msgVersionMask, Facts.msgVersion1, Wire.errBadVersion,
         Facts.peBAD_VERSION]
   · sr_simp [h1, h2]
   · sr_simp [h1, h2]
